@@ -366,6 +366,10 @@ def dual_call_site(b):
     b.add(Obligation(oid=f"{fn.key}::ensures:perturber_masses", fn=fn.key, clause="world 0 (host) is computed with the secondary's mass as tide raiser, world 1 with the host's; each with its own mass, moment of inertia and spin",
                      goal=sp.And(sp.Eq(h0, m1), sp.Eq(h1, m0), sp.Eq(kw0["target_mass"], m0), sp.Eq(kw1["target_mass"], m1), sp.Eq(kw0["spin_frequency"], O0), sp.Eq(kw1["spin_frequency"], O1),
                                  sp.Eq(kw0["target_moi"], C0), sp.Eq(kw1["target_moi"], C1)), hyps=pre + p.hyps))
+    own = dict(target_radius=("R_0", "R_1"), target_gravity=("g_0", "g_1"), target_density=("rho_0", "rho_1"), viscosity=("eta_0", "eta_1"), shear_modulus=("mu_0", "mu_1"))
+    wrong = {f"{k_}[world {i_}]": str(kw_.get(k_)) for k_, nm_ in own.items() for i_, kw_ in enumerate((kw0, kw1)) if not (kw_.get(k_) is R(nm_[i_]) or kw_.get(k_) == R(nm_[i_]))}
+    ground(b, f"{fn.key}::ensures:own_bulk_properties", fn.key, "each world is computed with ITS OWN radius, surface gravity, bulk density, viscosity and shear modulus (the homogeneous Love number is built from the body's own rho g R)",
+           not wrong, detail=str(wrong)[:300], refuted_model=None if not wrong else dict(wrong=str(wrong)[:200]))
     da = d["semi_major_axis_derivative"] / sc[0]
     ds0 = d["host"]["spin_rate_derivative"] / sc[2]
     ds1 = d["secondary"]["spin_rate_derivative"] / sc[2]
